@@ -107,8 +107,8 @@ theorem typedAll_nil {vs : List V} (h : TypedAll ty [] vs) : vs = [] := by
   | cons _ _ => cases h
 
 theorem nt_generic (ih : NoTrap P ty capt cfg n) (e : Expr) (st : St V) (hs : SafeList capt (children e))
-    (hnode : ∀ (vs rs : List V) (env : List (List (Slot V))), TypedAll ty (children e) vs →
-      readAll env (interpIds e) = some rs →
+    (hnode : ∀ (vs rs : List V) (env : List (Scope V)), TypedAll ty (children e) vs →
+      readAll P.dscope env (interpIds e) = some rs →
       ∃ v, P.node e (vs ++ rs) = .ok v ∧ ∀ t, literalTy e = some t → ty v t) :
     (∃ v, (finishNode P e (evalList P cfg n (children e) st)).1 = .ok v ∧ ∀ t, literalTy e = some t → ty v t) ∨
       Bad (finishNode P e (evalList P cfg n (children e) st)).1 := by
@@ -118,7 +118,7 @@ theorem nt_generic (ih : NoTrap P ty capt cfg n) (e : Expr) (st : St V) (hs : Sa
     simp only at hvs
     subst hvs
     simp only [finishNode]
-    cases hra : readAll s1.env (interpIds e) with
+    cases hra : readAll P.dscope s1.env (interpIds e) with
     | none => exact Or.inr (Or.inr rfl)
     | some rs =>
       obtain ⟨v, hv, ht⟩ := hnode vs rs s1.env hts hra
@@ -238,7 +238,7 @@ theorem nt_expr (L : Lawful P ty) (ih : NoTrap P ty capt cfg n) : ∀ (e : Expr)
       Bad (evalExpr P cfg (n + 1) e st).1
   | .var _ bd _, st, _ => by
       simp only [evalExpr]
-      cases bd.bind (fun id => lookupEnv id st.env) with
+      cases bd.bind (fun id => lookupEnv P.dscope id st.env) with
       | some v => exact Or.inl ⟨v, rfl, by intro t ht; simp [literalTy] at ht⟩
       | none => exact Or.inr (Or.inr rfl)
   | .num l sp, st, _ => by
